@@ -752,3 +752,69 @@ gzip_hcrc_harness!(kd7_gzip_hcrc_room1_out1, 31, 1);
 gzip_hcrc_harness!(kd7_gzip_hcrc_room1_out40, 31, 40);
 gzip_hcrc_harness!(kd7_gzip_hcrc_room2_out1, 30, 1);
 gzip_hcrc_harness!(kd7_gzip_hcrc_room3_out40, 29, 40);
+
+// ---------------------------------------------------------------------------------------------------------------
+// a finished stream (final block and trailer written): deflatePrime is still accepted and leaves bits in the bit
+// register and whole bytes in the pending buffer; deflate(Z_FINISH) afterwards never aborts, hands the whole bytes out
+// and reports StreamEnd as soon as nothing is pending (C16/C06: "never terminates the process").
+// ---------------------------------------------------------------------------------------------------------------
+#[kani::proof]
+#[kani::unwind(10)]
+#[kani::stub(core::fmt::write, stub_fmt_write)]
+#[kani::stub(core::panicking::panic_nounwind, stub_pn)]
+#[kani::stub(core::panicking::panic_nounwind_fmt, stub_pnf)]
+#[kani::stub(crate::deflate::algorithm::run, stub_run_consume_all)]
+#[kani::stub(<[u16]>::fill, stub_fill_zero)]
+fn kd7_finish_after_prime_on_a_finished_stream() {
+    let mut w = [0u8; 2 << WB7];
+    let mut p = [0u16; 1 << WB7];
+    let mut h = [0u16; HASH_SIZE];
+    let mut pe = [MaybeUninit::new(0u8); 4 * LB7];
+    let mut sy = [0u8; 3 * LB7];
+    let wrap: i8 = match kani::any::<u8>() % 3 {
+        0 => 0,  // raw stream
+        1 => -1, // zlib stream whose trailer has been written
+        _ => -2, // gzip stream whose trailer has been written
+    };
+    let mut state = typed_state(&mut w, &mut p, &mut h, &mut pe, &mut sy, WB7, LB7, 6, wrap, Strategy::Default);
+    state.window_size = 2 << WB7;
+    state.status = Status::Finish;
+    state.last_flush = 4; // Z_FINISH
+    state.strstart = 5;
+    state.block_start = 5;
+    let mut stream = typed_stream(unsafe { &mut *(&mut state as *mut State) });
+    let mut out = [0u8; 12];
+    stream.next_out = out.as_mut_ptr();
+    stream.avail_out = 0;
+    stream.total_out = 20;
+    let bits: i32 = kani::any();
+    let value: i32 = kani::any();
+    kani::assume(bits >= 0 && bits <= 32);
+    let rc = prime(&mut stream, bits, value);
+    assert!(rc == ReturnCode::Ok);
+    let whole = (bits / 8) as usize;
+    assert!(stream.state.bit_writer.pending.pending().len() == whole && stream.state.bit_writer.bits_valid as i32 == bits % 8);
+    let space: u32 = kani::any();
+    kani::assume(space <= 6);
+    stream.avail_out = space;
+    let rc = deflate(&mut stream, DeflateFlush::Finish);
+    if space == 0 {
+        assert!(rc == ReturnCode::BufError);
+    } else if (space as usize) < whole || (space as usize == whole && whole > 0) {
+        assert!(rc == ReturnCode::Ok, "output still pending (or the buffer is exactly full)");
+    } else {
+        assert!(rc == ReturnCode::StreamEnd, "nothing pending: the stream is (still) at its end, whatever the bit register holds");
+    }
+    let produced = (stream.total_out - 20) as usize;
+    assert!(produced == Ord::min(space as usize, whole) && stream.avail_out as usize == space as usize - produced);
+    let i: usize = kani::any();
+    kani::assume(i < 4);
+    if i < produced {
+        assert!(out[i] == (value as u32 >> (8 * i)) as u8, "the primed whole bytes reach the output in order");
+    }
+    assert!(out[produced] == 0);
+    kani::cover!(bits % 8 != 0 && rc == ReturnCode::StreamEnd);
+    kani::cover!(rc == ReturnCode::Ok);
+    core::mem::forget(stream);
+    core::mem::forget(state);
+}
